@@ -17,9 +17,12 @@ from dsim.programs import FAULTS, InjectedFault, InjectedInterrupt
 from dsim.seams import SimClock, SimFile
 
 PROP = "C20"
-NAMES = ["warning", "info", "danger", "repr.number", "rule.line", "bold", "bold red", "on blue", "nosuch.style", "not a style!", "progress.description", "x.y"]
+NAMES = ["warning", "info", "danger", "repr.number", "rule.line", "bold", "bold red", "on blue", "nosuch.style", "not a style!", "progress.description", "x.y",
+         # style names are case sensitive: a theme may define "Warning" next to the default "warning"
+         "Warning", "x.Y", "Bold", "INFO"]
 DEFS = ["bold red", "green", "italic #ff8800 on black", "underline", "dim color(42)", "reverse", "bold", "none", "blue on white", "strike bright_cyan"]
 CUSTOM = ["warning", "info", "danger", "repr.number", "rule.line", "x.y", "bold"]
+MIXED = ["Warning", "x.Y", "INFO"]
 
 
 ATTRS = ["bold", "dim", "italic", "underline", "blink", "blink2", "reverse", "conceal", "strike", "underline2", "frame", "encircle", "overline"]
@@ -55,7 +58,9 @@ def gen_def(rng):
 def gen_theme(rng):
     n = rng.randint(0, 4)
     styles = {}
-    for name in rng.sample(CUSTOM, n):
+    for name in rng.sample(CUSTOM, n) + ([rng.choice(MIXED)] if rng.random() < 0.12 else []):
+        if any(k.lower() == name.lower() for k in styles):
+            continue  # no two names of one theme differ in case only (configparser refuses such a file)
         styles[name] = gen_def(rng)
     return {"styles": styles, "inherit": rng.random() < 0.7}
 
@@ -397,6 +402,14 @@ class Prog:
                     self.check_all("after a refused pop of the base theme")
 
     def config_roundtrip(self):
+        late = []  # violations explained by known finding F19: reported only if nothing else is wrong
+        try:
+            self._config_roundtrip(late)
+        finally:
+            for a in late:
+                self._v(*a)
+
+    def _config_roundtrip(self, late):
         for ti in self.case["config_themes"]:
             theme = self._theme(self.case["pool"][ti])
             text = theme.config
@@ -405,9 +418,17 @@ class Prog:
             stream.seek(0)
             back = self.Theme.from_file(stream, inherit=False)
             self.probes["config_roundtrips"] += 1
+            folded = {k.lower(): v for k, v in theme.styles.items()}
+            mixed = folded != dict(theme.styles)
+            if mixed:
+                self.probes["config_mixed_case_names"] = self.probes.get("config_mixed_case_names", 0) + 1
             if back.styles != theme.styles:
                 diff = [k for k in theme.styles if back.styles.get(k) != theme.styles[k]][:3]
-                self._v("config", "config-roundtrip", "Theme.config does not read back equal: %r" % [(k, str(theme.styles[k]), str(back.styles.get(k))) for k in diff])
+                # known finding F19: configparser lower-cases option names, so a theme with an upper-case
+                # letter in a style name reads back under the folded name.  Exactly that and nothing else
+                # is attributed to the finding: the read-back must equal the theme with its names folded
+                sig = "config-names-lowercased" if mixed and back.styles == folded else "config-roundtrip"
+                (late.append if sig == "config-names-lowercased" else lambda a: self._v(*a))(("config", sig, "Theme.config does not read back equal: %r" % [(k, str(theme.styles[k]), str(back.styles.get(k))) for k in diff]))
             # the same text read as an inheriting theme: the defaults plus the entries
             stream.seek(0)
             inh = self.Theme.from_file(stream)
@@ -415,7 +436,11 @@ class Prog:
             exp.update(theme.styles)
             if inh.styles != exp:
                 diff = [k for k in set(exp) | set(inh.styles) if inh.styles.get(k) != exp.get(k)][:3]
-                self._v("config", "config-roundtrip", "Theme.config read back with inherit=True differs from defaults + entries at %r" % (diff,))
+                exp_folded = dict(self.defaults)
+                exp_folded.update(folded)
+                sig = "config-names-lowercased" if mixed and inh.styles == exp_folded else "config-roundtrip"
+                (late.append if sig == "config-names-lowercased" else lambda a: self._v(*a))(
+                    ("config", sig, "Theme.config read back with inherit=True differs from defaults + entries at %r" % (diff,)))
         # nothing that was pushed, popped or read from a config may have leaked into the global
         # defaults: a fresh console over a fresh theme resolves every name as at the start
         from rich.console import Console
